@@ -429,7 +429,9 @@ class TensorDictBase(MutableMapping):
             default=None,
         )
         if items:
-            result.update(items)
+            # the result inherits the lock of self: the entries that only `other` has are added before re-locking
+            with result.unlock_() if result.is_locked else contextlib.nullcontext():
+                result.update(items)
         return result
 
     __rand__ = __and__
@@ -10144,7 +10146,9 @@ class TensorDictBase(MutableMapping):
             default=None,
         )
         if items:
-            result.update(items)
+            # the result inherits the lock of self: the entries that only `other` has are added before re-locking
+            with result.unlock_() if result.is_locked else contextlib.nullcontext():
+                result.update(items)
         return result
 
     @_maybe_broadcast_other("bitwise_and")
@@ -10197,7 +10201,9 @@ class TensorDictBase(MutableMapping):
             default=None,
         )
         if items:
-            result.update(items)
+            # the result inherits the lock of self: the entries that only `other` has are added before re-locking
+            with result.unlock_() if result.is_locked else contextlib.nullcontext():
+                result.update(items)
         return result
 
     @_maybe_broadcast_other("logical_and")
@@ -10250,7 +10256,9 @@ class TensorDictBase(MutableMapping):
             default=None,
         )
         if items:
-            result.update(items)
+            # the result inherits the lock of self: the entries that only `other` has are added before re-locking
+            with result.unlock_() if result.is_locked else contextlib.nullcontext():
+                result.update(items)
         return result
 
     @_maybe_broadcast_other("add")
@@ -10309,7 +10317,9 @@ class TensorDictBase(MutableMapping):
             default=None,
         )
         if items:
-            result.update(items)
+            # the result inherits the lock of self: the entries that only `other` has are added before re-locking
+            with result.unlock_() if result.is_locked else contextlib.nullcontext():
+                result.update(items)
         return result
 
     def add_(
@@ -10584,7 +10594,9 @@ class TensorDictBase(MutableMapping):
             default=None,
         )
         if items:
-            result.update(items)
+            # the result inherits the lock of self: the entries that only `other` has are added before re-locking
+            with result.unlock_() if result.is_locked else contextlib.nullcontext():
+                result.update(items)
         return result
 
     def sub_(
@@ -10677,7 +10689,9 @@ class TensorDictBase(MutableMapping):
             default=None,
         )
         if items:
-            result.update(items)
+            # the result inherits the lock of self: the entries that only `other` has are added before re-locking
+            with result.unlock_() if result.is_locked else contextlib.nullcontext():
+                result.update(items)
         return result
 
     def maximum_(self, other: TensorDictBase | torch.Tensor) -> T:
@@ -10744,7 +10758,9 @@ class TensorDictBase(MutableMapping):
             default=None,
         )
         if items:
-            result.update(items)
+            # the result inherits the lock of self: the entries that only `other` has are added before re-locking
+            with result.unlock_() if result.is_locked else contextlib.nullcontext():
+                result.update(items)
         return result
 
     def minimum_(self, other: TensorDictBase | torch.Tensor) -> T:
@@ -10811,7 +10827,9 @@ class TensorDictBase(MutableMapping):
             default=None,
         )
         if items:
-            result.update(items)
+            # the result inherits the lock of self: the entries that only `other` has are added before re-locking
+            with result.unlock_() if result.is_locked else contextlib.nullcontext():
+                result.update(items)
         return result
 
     def clamp_max_(self, other: TensorDictBase | torch.Tensor) -> T:
@@ -10892,7 +10910,9 @@ class TensorDictBase(MutableMapping):
             default=None,
         )
         if items:
-            result.update(items)
+            # the result inherits the lock of self: the entries that only `other` has are added before re-locking
+            with result.unlock_() if result.is_locked else contextlib.nullcontext():
+                result.update(items)
         return result
 
     def clamp_min_(self, other: TensorDictBase | torch.Tensor) -> T:
@@ -10974,7 +10994,9 @@ class TensorDictBase(MutableMapping):
             default=None,
         )
         if items:
-            result.update(items)
+            # the result inherits the lock of self: the entries that only `other` has are added before re-locking
+            with result.unlock_() if result.is_locked else contextlib.nullcontext():
+                result.update(items)
         return result
 
     @_maybe_broadcast_other("clamp", 2)
@@ -11111,7 +11133,9 @@ class TensorDictBase(MutableMapping):
             default=None,
         )
         if items:
-            result.update(items)
+            # the result inherits the lock of self: the entries that only `other` has are added before re-locking
+            with result.unlock_() if result.is_locked else contextlib.nullcontext():
+                result.update(items)
         return result
 
     def div_(self, other: TensorDictBase | torch.Tensor) -> T:
@@ -11184,7 +11208,9 @@ class TensorDictBase(MutableMapping):
             default=None,
         )
         if items:
-            result.update(items)
+            # the result inherits the lock of self: the entries that only `other` has are added before re-locking
+            with result.unlock_() if result.is_locked else contextlib.nullcontext():
+                result.update(items)
         return result
 
     def sqrt_(self):
